@@ -218,6 +218,14 @@ func genC09(seed uint64, pairs bool) *world.Scenario {
 		}
 		sc.Faults = append(sc.Faults, f2)
 	}
+	if tr := kernel.NewRand(seed, "c09.slowclock"); tr.Bool(0.15) {
+		// a leisurely configuration: control cycles every 90 s or every 10 minutes, polls every few seconds
+		// (legal values; the same faults, hours of virtual time)
+		sc.Tick = world.Dur(kernel.Pick(tr, 90*time.Second, 10*time.Minute))
+		sc.TempPoll, sc.RpmPoll = world.Dur(kernel.Pick(tr, 5*time.Second, 30*time.Second)), world.Dur(kernel.Pick(tr, 10*time.Second, 60*time.Second))
+		sc.Horizon = world.Dur(4*time.Second + 14*sc.Tick.D())
+		sc.Variant += "/slow-clock"
+	}
 	return sc
 }
 
